@@ -168,6 +168,7 @@ type bwhat =
 | BPubEnd
 | BSub
 | BUnsub
+| BTopic
 
 type topk =
 | TPublish
@@ -754,3 +755,27 @@ val m16_step : m16 -> event -> m16 option
 val m16_run : m16 -> event list -> m16 option
 
 val chk_C16 : event list -> bool
+
+type top = (oid * topk) * nat
+
+val rmq : aid -> aid list -> aid list
+
+val table_after : top list -> aid list -> aid list
+
+type m09q = { q_pend : ((topk * nat) * nat) map0; q_enq : top list map0;
+              q_done : top list map0; q_wait : top list map0; q_bt : 
+              nat map0 }
+
+val m09q_init : m09q
+
+val lof : top list map0 -> nat -> top list
+
+val topk_eqb : topk -> topk -> bool
+
+val take : m09q -> nat -> topk -> (top -> bool) -> m09q option
+
+val m09q_step : m09q -> event -> m09q option
+
+val m09q_run : m09q -> event list -> m09q option
+
+val chk_C09q : event list -> bool
